@@ -506,15 +506,30 @@ def svg_reference_and_css_families(ctx):
     r.rule("R9.10", "CSS property acceptance consults the configured lists only", floor=1)
     at = ctx.repo.func(REL, "Filter.allowed_token")
     subs = [c for c in ast.walk(at.node) if isinstance(c, ast.Call) and norm(c.func) == "re.sub" and c.args and "url" in str(ce.try_eval(c.args[0], at.module))]
-    if len(subs) != 1:
+    # the same pattern compiled once at module level: `_name = re.compile(<pattern>[, flags])` ... `_name.sub(' ', value)`
+    precompiled = {}
+    for st in at.module.tree.body:
+        if isinstance(st, ast.Assign) and len(st.targets) == 1 and isinstance(st.targets[0], ast.Name) and isinstance(st.value, ast.Call) and \
+                norm(st.value.func) == "re.compile" and st.value.args and "url" in str(ce.try_eval(st.value.args[0], at.module)):
+            precompiled[st.targets[0].id] = st.value
+    psubs = [c for c in ast.walk(at.node) if isinstance(c, ast.Call) and isinstance(c.func, ast.Attribute) and c.func.attr == "sub" and
+             isinstance(c.func.value, ast.Name) and c.func.value.id in precompiled]
+    if len(subs) + len(psubs) != 1:
         r.idiom("R9.9", False, "svg-url-reference", at.where, "the url() stripping substitution of allowed_token was not found")
     else:
-        pat = ce.try_eval(subs[0].args[0], at.module)
-        flags = 0
-        for k in subs[0].keywords:
+        if psubs:
+            comp = precompiled[psubs[0].func.value.id]
+            pat = ce.try_eval(comp.args[0], at.module)
+            flagexprs = [norm(a) for a in comp.args[1:]] + [norm(k.value) for k in comp.keywords if k.arg == "flags"]
+            flags = _re.I if any(x in ("re.I", "re.IGNORECASE") for x in flagexprs) else 0
+            subs = psubs
+        else:
+            pat = ce.try_eval(subs[0].args[0], at.module)
+            flags = 0
+        for k in (subs[0].keywords if not psubs else []):
             if k.arg == "flags":
                 flags = {"re.I": _re.I, "re.IGNORECASE": _re.I}.get(norm(k.value), 0)
-        if len(subs[0].args) > 4:
+        if not psubs and len(subs[0].args) > 4:
             flags = {"re.I": _re.I, "re.IGNORECASE": _re.I}.get(norm(subs[0].args[4]), 0)
         try:
             rx = _re.compile(pat, flags)
